@@ -66,6 +66,24 @@ else:
     mpctx_Process = mpctx.Process
 
 
+def _send_exception(connection: Connection, e: Exception) -> None:
+    """
+    Notify the other end of the connection that an exception has occurred:
+    Send -2 followed by a tuple of the exception and the traceback as string.
+
+    Must be called from an except clause. If the exception cannot be pickled
+    (this is the case for some exceptions raised by decompression libraries),
+    a RuntimeError with the same message is sent instead, so that the other end
+    is not left waiting forever.
+    """
+    tb_str = traceback.format_exc()
+    connection.send(-2)
+    try:
+        connection.send((e, tb_str))
+    except Exception:
+        connection.send((RuntimeError(f"{type(e).__name__}: {e}"), tb_str))
+
+
 def _keep_pairs_together(chunks: Iterable[memoryview]) -> Iterator[memoryview]:
     """
     Ensure that each chunk of interleaved data contains an even number of records.
@@ -153,8 +171,7 @@ class ReaderProcess(mpctx_Process):
                     ]
                     file_format = detect_file_format(files[0])
                 except Exception as e:
-                    self._file_format_connection.send(-2)
-                    self._file_format_connection.send((e, traceback.format_exc()))
+                    _send_exception(self._file_format_connection, e)
                     raise
                 self._file_format_connection.send(file_format)
                 for index, chunks in enumerate(self._read_chunks(*files)):
@@ -167,8 +184,7 @@ class ReaderProcess(mpctx_Process):
             # are caught within the workers.
             _verif_trace("rfail")
             for connection in self.connections:
-                connection.send(-2)
-                connection.send((e, traceback.format_exc()))
+                _send_exception(connection, e)
 
     def _read_chunks(self, *files) -> Iterator[Tuple[memoryview, ...]]:
         if len(files) == 1:
@@ -280,8 +296,7 @@ class WorkerProcess(mpctx_Process):
         except Exception as e:
             if _VERIF_TRACE and locals().get("_verif_current_chunk") is not None:
                 _verif_trace("takebad", self._id, locals()["_verif_current_chunk"])
-            self._write_pipe.send(-2)
-            self._write_pipe.send((e, traceback.format_exc()))
+            _send_exception(self._write_pipe, e)
 
     def _send_outfiles(self, chunk_index: int, n_reads: int):
         self._write_pipe.send(chunk_index)
